@@ -48,6 +48,10 @@ def instances(tier, seed):
         out.append({'id': 'SuperNet:S(2,mix,2 blocks)', 'what': 'sn', 'spec': {'n': 2, 'kind': 'mix', 'blocks': 2}, 'wseed': seed})
     for cost in (('params_bit', 'ops_bit') if tier == 'quick' else ('params_bit', 'ops_bit', 'mpic_latency', 'ne16_latency')):
         out.append({'id': f'MPS:{cost}', 'what': 'mps', 'cost': cost, 'wseed': seed})
+    # per-channel weight search with the 0-bit (pruning) option under hard sampling: every selection, including a layer whose channels are all
+    # pruned, must give a finite cost and finite gradients
+    for cost in ('params_bit', 'ops_bit'):
+        out.append({'id': f'MPS:{cost}:per_channel+0bit:hard', 'what': 'mps', 'cost': cost, 'wseed': seed, 'channel0': True})
     out.append({'id': 'ODiMO_MPS:defaults', 'what': 'odimo', 'wseed': seed})
     return out
 
@@ -516,9 +520,13 @@ def _run_mps(res, p, selftest):
     cost = getattr(importlib.import_module('plinio.cost.' + p['cost']), p['cost'])
     torch.manual_seed(0)
     a_prec = (8,) if p['cost'] == 'ne16_latency' else (4, 8)
-    m = MPS(_MNet(), input_shape=(1, 2, 2), qinfo=get_default_qinfo((2, 8), a_prec), w_search_type=MPSType.PER_LAYER, cost=cost)
+    ch0 = bool(p.get('channel0'))
+    if ch0:
+        m = MPS(_MNet(), input_shape=(1, 2, 2), qinfo=get_default_qinfo((0, 2, 8), (8,)), w_search_type=MPSType.PER_CHANNEL, cost=cost, hard_softmax=True)
+    else:
+        m = MPS(_MNet(), input_shape=(1, 2, 2), qinfo=get_default_qinfo((2, 8), a_prec), w_search_type=MPSType.PER_LAYER, cost=cost)
     m.train_net_and_nas()
-    qs = [(n, q) for n, q in m.named_modules() if isinstance(q, MPSBaseQtz) and 'alpha' in q._parameters and q.alpha.numel() > 1]
+    qs = [(n, q) for n, q in m.named_modules() if isinstance(q, MPSBaseQtz) and 'alpha' in q._parameters and q.alpha.numel() > 1 and (not ch0 or 'c0.w_mps_quantizer' in n)]
     seen = set()
     qs = [(n, q) for n, q in qs if not (id(q) in seen or seen.add(id(q)))]
 
@@ -528,6 +536,12 @@ def _run_mps(res, p, selftest):
             a = SymTensor.fresh(n.replace('.', '_'), tuple(q.alpha.shape))
             for v in a.elems():
                 ex.assume(v >= -4, v <= 4)
+            if ch0:
+                A_ = st.to_arr(a).reshape(a.shape[0], -1)
+                for c_ in range(A_.shape[1]):
+                    for i_ in range(A_.shape[0]):
+                        for j_ in range(i_ + 1, A_.shape[0]):
+                            ex.assume(z3.Or(A_[i_, c_] - A_[j_, c_] >= Fraction(1, 20), A_[j_, c_] - A_[i_, c_] >= Fraction(1, 20)))
             pairs.append((q, 'alpha', a))
             sy[n] = a
         with SymMode(), swapped_params(pairs):
@@ -561,7 +575,7 @@ def _run_mps(res, p, selftest):
             r, _ = ex.must(g)
             res.oblige(r == 'unsat')
             if r == 'sat':
-                res.violations.append({'key': f'MPS|{p["cost"]}|nonfinite', 'what': f'division by zero reachable in the cost: {str(g)[:300]}'})
+                res.violations.append({'key': f'MPS|{p["cost"]}|nonfinite' + ('|per_channel+0bit' if ch0 else ''), 'what': f'division by zero reachable in the cost: {str(g)[:300]}'})
         r, _ = ex.must(st.e_lt(c, 0))
         res.oblige(r == 'unsat')
         if r == 'sat':
@@ -634,6 +648,12 @@ def _run_odimo(res, p, selftest):
             a = SymTensor.fresh(n.replace('.', '_'), tuple(q.alpha.shape))
             for v in a.elems():
                 ex.assume(v >= -4, v <= 4)
+            if ch0:
+                A_ = st.to_arr(a).reshape(a.shape[0], -1)
+                for c_ in range(A_.shape[1]):
+                    for i_ in range(A_.shape[0]):
+                        for j_ in range(i_ + 1, A_.shape[0]):
+                            ex.assume(z3.Or(A_[i_, c_] - A_[j_, c_] >= Fraction(1, 20), A_[j_, c_] - A_[i_, c_] >= Fraction(1, 20)))
             pairs.append((q, 'alpha', a))
             sy[n] = a
         with SymMode(), swapped_params(pairs):
